@@ -190,6 +190,11 @@ def binder_records(repo):
                 rec['line'] = src(b.get('srcline'))
                 if b.get('cls') != EXPECTED_CLASS[binder['kind']]:
                     rec['wrong_class'].append((s.variant, b.get('cls')))
+                # the parser positions a decorated definition at its `def` / `class` keyword: a binding that becomes visible "at
+                # the start of the statement X" by taking np(X) is not yet visible in the decorators of X
+                lk = loc_kind(b.get('location'))
+                if lk[0] == 'np' and Template(s.root, bp).sort_of(lk[1]) == 'stmt' and binder['after']:
+                    rec.setdefault('np_of_stmt', []).append((s.variant, gen(lk[1])))
                 newscopes = [ns['token'] for ns in bp.new_scopes]
                 sc = scope_of_region(bp, b['region'])
                 if (binder['scope'] == 'new') != (sc in newscopes):
